@@ -37,6 +37,13 @@ func genC19(t *rapid.T) C19Case {
 		c.SP.Enc.Setter = h.CertRef{Key: "E2", Window: "wide"}
 	}
 	c.SP.Skip = rapid.Bool().Draw(t, "skip")
+	c.SP.ValidateEncCert = rapid.Bool().Draw(t, "validateEncCert")
+	if rapid.IntRange(0, 2).Draw(t, "encCertWindow") == 0 {
+		// the SP's own certificate may be expired / not yet valid at the SP clock: metadata must still say
+		// which keys are in use
+		w := rapid.SampledFrom([]string{"past", "future", "narrow"}).Draw(t, "encWindow")
+		c.SP.Enc.Field.Window, c.SP.Enc.Setter.Window = w, w
+	}
 	if rapid.IntRange(0, 2).Draw(t, "namedZone") == 0 {
 		// a clock in a DST-observing zone, close to a transition (calendar arithmetic differs from 168 h there)
 		c.SP.NowZone = rapid.SampledFrom([]string{"America/New_York", "Europe/Berlin", "Australia/Lord_Howe", "America/Sao_Paulo", "Pacific/Chatham"}).Draw(t, "zone")
@@ -67,7 +74,7 @@ func checkC19(c C19Case) h.Outcome {
 	if c.SP.NowZone != "" {
 		o.Classes = append(o.Classes, "clock:dst-zone")
 	}
-	o.Classes = append(o.Classes, fmt.Sprintf("slo:%v", c.SLO), "enc:"+c.SP.Enc.Mode, "sig:"+c.SP.Sig.Mode, fmt.Sprintf("signRequests:%v", c.SP.SignRequests), fmt.Sprintf("skip:%v", c.SP.Skip))
+	o.Classes = append(o.Classes, fmt.Sprintf("slo:%v", c.SLO), "enc:"+c.SP.Enc.Mode, "sig:"+c.SP.Sig.Mode, fmt.Sprintf("signRequests:%v", c.SP.SignRequests), fmt.Sprintf("skip:%v", c.SP.Skip), fmt.Sprintf("validateEncCert:%v", c.SP.ValidateEncCert))
 	switch {
 	case !c.SLO:
 	case c.Hours <= 0:
@@ -195,7 +202,7 @@ func checkC19(c C19Case) h.Outcome {
 	vsp := c.SP
 	vsp.ACS, vsp.IdPIssuer = "https://sp.example.com/acs", "https://idp.example.com/metadata"
 	vsp.Store = []h.CertRef{{Key: "T1", Window: "wide"}}
-	vsp.NowUnixNano, vsp.NowOffset, vsp.Skip = h.BaseSP().NowUnixNano, 0, false
+	vsp.NowUnixNano, vsp.NowOffset, vsp.NowZone, vsp.Skip, vsp.ValidateEncCert = h.BaseSP().NowUnixNano, 0, "", false, false
 	g := gridGenuine(vsp, 1, "assertions")
 	ivn := 16
 	if h.IsGCM(m) {
@@ -278,6 +285,16 @@ func TestC19_Grid(t *testing.T) {
 					sp.NowOffset = []int{0, 330, -480}[i%3]
 					cases = append(cases, C19Case{SP: sp, SLO: slo, Hours: hrs, Alg: i})
 				}
+			}
+		}
+	}
+	for _, w := range []string{"past", "future", "narrow"} {
+		for _, em := range []string{"tls", "custom", "setter", "both"} {
+			for _, slo := range []bool{false, true} {
+				sp := h.BaseSP()
+				sp.Enc = h.KeyCfg{Mode: em, Field: h.CertRef{Key: "E1", Window: w}, Setter: h.CertRef{Key: "E2", Window: w}}
+				sp.ValidateEncCert = true
+				cases = append(cases, C19Case{SP: sp, SLO: slo, Hours: 12})
 			}
 		}
 	}
